@@ -114,6 +114,12 @@ fn reduce_line(out: &mut Out, o: Order, limit: usize, t: &Term) -> Option<(Term,
     match guarded(|| u.reduce(o, limit)) {
         Ok(c) => {
             out.line(format!("reduce\t{}\t{}\t{}\t{}\t{}", order_name(o), limit, ser(t), ser(&u), c));
+            // the free function beta is reduce on an owned term
+            match guarded(|| beta(t.clone(), o, limit)) {
+                Ok(b) if b == u => {}
+                Ok(b) => out.line(format!("reduce\t{}\t{}\t{}\tpanic beta() returns {} where reduce() leaves {}\t0", order_name(o), limit, ser(t), ser(&b), ser(&u))),
+                Err(p) => out.line(format!("reduce\t{}\t{}\t{}\tpanic beta(): {}\t0", order_name(o), limit, ser(t), p.replace(['\t', '\n'], " "))),
+            }
             Some((u, c))
         }
         Err(p) => {
